@@ -833,6 +833,7 @@ def run(ctx):
     except T5.TranslateError as e:
         ctx.obligation("T5:translate", False, str(e))
     coq_ok, res = ctx.coq_obligations(files)
+    trl_order_pairs(ctx)                    # order of through / reflect / line on the analytic TRL path (own RNG)
     if not coq_ok:
         # shared coq/ tree: a build failure must be reproducible to count
         import time
@@ -1128,6 +1129,107 @@ def run(ctx):
         ctx.unproved("C17:coq", "Coq development no longer builds: " + log[-400:].replace("\n", " "),
                      "pairs of scenarios for every transformation through the C API")
 
+
+
+def trl_order_pairs(ctx):
+    """Order of standards on the analytic TRL path (unknown parameters; calcore has none, so this uses the self-calibration
+    harness and the physical oracle of lib/selfcal_gen.py): 2x2 T8 / U8 / TE10 / UE10, exactly a through, a double reflect with
+    one unknown parameter on both ports and a line with an unknown transmission, no error modelling, entered in ALL SIX orders
+    (the unknown parameters are created in the order of their standards).  The same data in another order must give the same
+    solve outcome, the same solved parameters and the same applied S (1e-9 relative); a differing pair is excused only if the
+    T,R,L run itself misses the true device by more than 1e-9."""
+    import itertools
+    import random as _random
+    import selfcal_gen as G
+    quick = ctx.tier == "quick"
+    exe = ctx.build_harness("selfcal_harness", san=True)
+    own = _random.Random(ctx.seed * 7919 + 1711)      # own stream: the other ties see the same cases as before
+    groups = []
+    scen = []
+    k = 0
+    for typ in ("T8", "U8", "TE10", "UE10"):
+        for rep in range(2 if quick else 8):
+            seed = own.getrandbits(48)
+            nf = 1 + rep % 3
+            gfrac = [0.15, 0.5, 0.3][rep % 3]
+            grp = []
+            for order in itertools.permutations("TRL"):
+                rng = _random.Random(seed)
+                sc = G.build_trl(rng, "trlorder%d" % k, typ, nf=nf, gfrac=gfrac, swap=False)
+                k += 1
+                head, body = sc.lines[:2], sc.lines[2:]
+                blocks, cur = {}, []
+                for ln in body:
+                    cur.append(ln)
+                    w = ln.split()[0]
+                    if w in ("through", "double", "line"):
+                        blocks[{"through": "T", "double": "R", "line": "L"}[w]] = cur
+                        cur = []
+                if cur or sorted(blocks) != ["L", "R", "T"]:
+                    raise vplib.BuildError("selfcal_gen.build_trl no longer emits through / double / line blocks")
+                sc.lines = head + [ln for ch in order for ln in blocks[ch]]
+                sc.meta["order"] = "".join(order)
+                sc.solve()
+                sc.getparams()
+                G.add_dut(rng, sc)
+                grp.append(sc)
+                scen.append(sc)
+            groups.append(grp)
+    results = G.run_batch(ctx, exe, scen)
+    nbad = ncmp = 0
+    worst = 0.0
+    for grp in groups:
+        base = grp[0]
+        rb = results.get(base.sid)
+        ctx.count(("trl-order", base.typ, base.nf))
+        if rb is None or rb.get("crash") or not rb.get("solve"):
+            nbad += 1
+            ctx.violation(rb.get("crash") if rb and rb.get("crash") else {"kind": "fault", "error": "no result", "function": None},
+                          "TRL order pairs: the T,R,L run of %s did not finish" % base.typ, {"scenario": base.text()})
+            continue
+        base_err = G.dut_error(base, rb)
+        for sc in grp[1:]:
+            r = results.get(sc.sid)
+            ctx.count(None)
+            what = None
+            if r is None or r.get("crash") or not r.get("solve"):
+                what = "the run in the order %s did not finish" % sc.meta["order"]
+            elif r["solve"][-1]["rc"] != rb["solve"][-1]["rc"]:
+                what = "solve returns %d in the order %s and %d in the order T,R,L" % (
+                    r["solve"][-1]["rc"], sc.meta["order"], rb["solve"][-1]["rc"])
+            elif rb["solve"][-1]["rc"] == 0:
+                d = 0.0
+                for f in range(sc.nf):
+                    a, b = rb["S"][0].get(f), r["S"][0].get(f) if r["S"] else None
+                    if a is None or b is None:
+                        d = float("inf")
+                        break
+                    d = max(d, max(abs(x - y) for x, y in zip(a, b)) / max(1.0, max(abs(x) for x in a)))
+                for nm in base.truth:
+                    pa, pb = rb["params"].get(nm), r["params"].get(nm)
+                    if not pa or not pb:
+                        d = float("inf")
+                        break
+                    d = max(d, G.max_err(pa[0], pb[0]))
+                worst = max(worst, d if d == d and d != float("inf") else 0.0)
+                if not d <= TOL:
+                    if base_err is not None and base_err > TOL:
+                        continue        # ill-conditioned draw: the T,R,L run itself is off
+                    what = ("applied S / solved parameters in the order %s differ from the order T,R,L by %.3g "
+                            "(through, unknown double reflect, unknown line: the analytic TRL path)" % (sc.meta["order"], d))
+            if what:
+                nbad += 1
+                if nbad <= 3:
+                    ctx.violation({"kind": "pair", "transformation": "order(TRL)", "class": "differ", "type": sc.typ},
+                                  "order of standards on %s 2x2: %s" % (sc.typ, what),
+                                  {"how": "harness/selfcal_harness.c < scenario", "scenario": sc.text(), "base": base.text()})
+            else:
+                ncmp += 1
+                ctx.traces_validated += 1
+    ctx.extra["trl_order_pairs_compared"] = ncmp
+    ctx.extra["trl_order_worst_difference"] = worst
+    ctx.obligation("tie:order of through / reflect / line on the analytic TRL path (six orders, applied S and solved parameters)",
+                   nbad == 0 and ncmp >= 5 * len(groups) * 3 // 4, "%d pairs compared, worst difference %.2g, %d problems" % (ncmp, worst, nbad))
 
 
 def pkgG_frequencies_with_m_error(ctx):
